@@ -259,11 +259,11 @@ func buildAtoms(tier string) []*atom {
 	}
 	pn := func(cls string, names []string) {
 		for _, nm := range names {
+			// one atom per action kind: the three code paths clean names differently
 			k := id("x")
-			hy(cls+":"+nm, nm,
-				action{kind: "method", name: "pm" + k, params: []param{{nm, "int32"}, {"omega", "str"}}, ret: "int32"},
-				action{kind: "signal", name: "ps" + k, params: []param{{nm, "int32"}}},
-				action{kind: "property", name: "pp" + k, params: []param{{nm, "int32"}}})
+			hy(cls+"@method:"+nm, nm, action{kind: "method", name: "pm" + k, params: []param{{nm, "int32"}, {"omega", "str"}}, ret: "int32"})
+			hy(cls+"@signal:"+nm, nm, action{kind: "signal", name: "ps" + k, params: []param{{nm, "int32"}}})
+			hy(cls+"@property:"+nm, nm, action{kind: "property", name: "pp" + k, params: []param{{nm, "int32"}}})
 		}
 	}
 	pn("param-name=keyword", goKeywords)
